@@ -150,21 +150,35 @@ func (s *JSONDB) ReadStatusRecent(dagFile string, n int) []*model.StatusFile {
 }
 
 func (s *JSONDB) ReadStatusToday(dagFile string) (*model.Status, error) {
-	files, err := s.latestTodayFiles(dagFile, time.Now(), s.latestStatusToday)
-	if err != nil {
-		return nil, err
-	}
-	// Fall back to the next newest file when the newest one holds no complete
-	// status yet, instead of failing the whole query.
 	var lastErr error
-	for _, file := range files {
-		status, err := s.cache.LoadLatest(file, func() (*model.Status, error) {
-			return ParseFile(file)
-		})
-		if err == nil {
-			return status, nil
+	// A record is renamed when its run ends (compaction): a file that was
+	// listed a moment ago may be gone by the time it is read. That is not a
+	// failure, and the run is not older than the others either: list again.
+	for attempt := 0; attempt < 3; attempt++ {
+		files, err := s.latestTodayFiles(dagFile, time.Now(), s.latestStatusToday)
+		if err != nil {
+			return nil, err
 		}
-		lastErr = err
+		// Fall back to the next newest file when the newest one holds no
+		// complete status yet, instead of failing the whole query.
+		vanished := false
+		lastErr = nil
+		for _, file := range files {
+			status, err := s.cache.LoadLatest(file, func() (*model.Status, error) {
+				return ParseFile(file)
+			})
+			if err == nil {
+				return status, nil
+			}
+			lastErr = err
+			if errors.Is(err, os.ErrNotExist) {
+				vanished = true
+				break
+			}
+		}
+		if !vanished {
+			break
+		}
 	}
 	if errors.Is(lastErr, io.EOF) {
 		// Only files without a complete status (e.g. left by a killed
